@@ -76,6 +76,21 @@ def build_cases(tier):
         # a resolvable pair followed by an unresolvable one: nothing may be written
         for o1 in OUT_LOCS:
             cases.append({"oi": oi, "oo": oo, "pairs": [["Y", o1], ["g.a", "ZZ"]], "wrap": False, "eval": False, "via": "api"})
+    # an earlier pair's output name is a later pair's input address (the input module defines Q and att as well)
+    for oi, oo in multi_orders:
+        for wrap in (False, True):
+            for pairs in ([["Y", "Q"], ["Q", "gg.v"]], [["Q", "gg.v"], ["Y", "Q"]], [["A.attr", "AA.att"], ["att", "gg.u"]],
+                          [["Y", "Q"], ["Q", "AA.att"], ["att", "gg.w"]]):
+                cases.append({"oi": oi, "oo": oo, "pairs": pairs, "wrap": wrap, "eval": False, "via": "api", "overlap": True})
+    # eval mode with the wrap template and several pairs (the same evaluated input used twice, two different inputs)
+    for oi, oo in multi_orders:
+        for wrap in (False, True):
+            for n1, n2 in (("VALS", "VALS"), ("VALS", "NUMS"), ("NUMS", "VALS")):
+                for o1, o2 in list(itertools.permutations(OUT_LOCS, 2))[::3]:
+                    cases.append({"oi": oi, "oo": oo, "pairs": [[n1, o1], [n2, o2]], "wrap": wrap, "eval": True, "via": "api"})
+            for name in ("VALS", "NUMS"):
+                for o in OUT_LOCS:
+                    cases.append({"oi": oi, "oo": oo, "pairs": [[name, o]], "wrap": True, "eval": True, "via": "api"})
     # eval mode (top level only)
     for oi in orders_in:
         for oo in orders_out:
@@ -212,6 +227,8 @@ class C14(core.Check):
         self._calls = getattr(self, "_calls", 0) + 1
         tag, num = "t%d" % (self._calls % 7), 10 + self._calls % 5
         in_src = module_src(IN_ITEMS, case["oi"], EVAL_PREFIX.format(tag=tag, num=num) if case["eval"] else "from typing import Optional\n")
+        if case.get("overlap"):
+            in_src += "\nQ: float = 1.5\natt: bytes = b'x'\n"
         out_src = module_src(OUT_ITEMS, case["oo"])
         fin, fout = os.path.join(self._dir, "input_mod.py"), os.path.join(self._dir, "output_mod.py")
         with open(fin, "w") as f:
@@ -291,7 +308,8 @@ class C14(core.Check):
                 continue
             if case["eval"]:
                 vals = {"VALS": ("a", "b", tag), "NUMS": (1, 2, num), "DUPS": ("x", tag, "x"), "MIXED": (0, False, 1, True, num)}[p[0]]
-                want = ast.dump(ast.parse("Literal[%s]" % ", ".join(repr(v) for v in vals), mode="eval").body)
+                lit = "Literal[%s]" % ", ".join(repr(v) for v in vals)
+                want = ast.dump(ast.parse(wrap.format(output_param=lit) if wrap else lit, mode="eval").body)
             else:
                 ann = annotation_of(inn)
                 if ann is None:
